@@ -699,6 +699,20 @@ MULTI += [
    ("                            channel.requests.pop();", "                            channel.requests.remove(0);")]),
 ]
 
+# formerly a documented limit (round 7): the two calls before the acknowledgement extracted into one helper
+MULTI += [
+ ("B.file_sync_helper", ["C10", "C07", "C11"], "emitter/file/src/lib.rs", [
+   ("""        file.file
+            .flush()
+            .map_err(|e| emit_batcher::BatchError::no_retry(e))?;
+        file.file
+            .sync_all()
+            .map_err(|e| emit_batcher::BatchError::no_retry(e))?;
+""", """        flush_and_sync(&mut file).map_err(|e| emit_batcher::BatchError::no_retry(e))?;
+"""),
+   ("fn is_file_in_set(file_name: &str, file_prefix: &str, file_ext: &str) -> bool {", "fn flush_and_sync(file: &mut ActiveFile) -> io::Result<()> {\n    file.file.flush()?;\n    file.file.sync_all()\n}\n\nfn is_file_in_set(file_name: &str, file_prefix: &str, file_ext: &str) -> bool {")]),
+]
+
 # helper extraction: a step of a function the rules look at is moved into a new private function.  Since round 9 such functions (not in
 # rules/known_fns.json) are inlined into their callers before the rules run, so these must stay silent.
 MULTI += [
